@@ -13,9 +13,10 @@ if os.path.exists(os.path.join(sub, "patch.diff")):
 else:
     patch = subprocess.run(["git", "-C", tree, "diff", "--", "xgi"], capture_output=True, text=True).stdout
 open(os.path.join(dst, "patch.diff"), "w").write(patch)
-shutil.copy(os.path.join(sub, "demo.py"), os.path.join(dst, "demo.py"))
-if os.path.exists(os.path.join(sub, "notes.md")):
-    shutil.copy(os.path.join(sub, "notes.md"), os.path.join(dst, "notes.md"))
+if os.path.abspath(sub) != os.path.abspath(dst):      # (re-evaluating a stored seed: <seed-worktree> is seeded/<prop>-<name> itself)
+    shutil.copy(os.path.join(sub, "demo.py"), os.path.join(dst, "demo.py"))
+    if os.path.exists(os.path.join(sub, "notes.md")):
+        shutil.copy(os.path.join(sub, "notes.md"), os.path.join(dst, "notes.md"))
 # evaluate on a fresh worktree of /repo's current HEAD with only the patch applied
 fresh = f"/tmp/seedeval_{prop}_{os.getpid()}"
 subprocess.run(["git", "-C", "/repo", "worktree", "add", "-q", fresh, "HEAD"], check=True)
